@@ -6,7 +6,7 @@ export GOFLAGS=-mod=mod GOPROXY=off GOSUMDB=off GOTOOLCHAIN=local
 cmd=$1; id=$2
 case $cmd in
 verify)
-  wt=/tmp/mut/$id
+  wt=/tmp/mut/${MUTDIR:-$id}
   cd $wt || exit 2
   loc=$(python3 -c "import json;print(json.load(open('mutant/meta.json'))['demo_location'])")
   dcmd=$(python3 -c "import json;print(json.load(open('mutant/meta.json'))['demo_cmd'])")
